@@ -440,10 +440,14 @@ theorem loaded_processSeq (sync : Bool) (P : List SDef) (E : Eng) (evs : List Ev
   rw [processSeq_hist_none sync evs E s hs']
   exact h.clean s hs'
 
-theorem changed_self (d : SDef) : changed d d = false := by
-  simp [changed, sameSet]
+theorem changed_self (E N : Eng) (h : ∀ s, E.find s = N.find s) (d : SDef) : changed E N d d = false := by
+  have : ∀ n, declChanged E N n = false := by
+    intro n; simp only [declChanged, h]
+    cases N.find n <;> simp
+  simp [changed, sameSet, this]
 
-theorem reloadPick_name (chg : SDef → SDef → Bool) (E : Eng) (d' : SDef) : (reloadPick chg E d').name = d'.name := by
+theorem reloadPick_name (chg : Eng → Eng → SDef → SDef → Bool) (E N : Eng) (d' : SDef) :
+    (reloadPick chg E N d').name = d'.name := by
   unfold reloadPick
   cases hf : E.find d'.name with
   | none => rfl
@@ -454,8 +458,8 @@ theorem reloadPick_name (chg : SDef → SDef → Bool) (E : Eng) (d' : SDef) : (
     simp only
     split <;> simp [this]
 
-theorem find_map_pick (chg : SDef → SDef → Bool) (E : Eng) (l : List SDef) (s : Ty) :
-    (l.map (reloadPick chg E)).find? (fun d => d.name == s) = (l.find? (fun d => d.name == s)).map (reloadPick chg E) := by
+theorem find_map_pick (chg : Eng → Eng → SDef → SDef → Bool) (E N : Eng) (l : List SDef) (s : Ty) :
+    (l.map (reloadPick chg E N)).find? (fun d => d.name == s) = (l.find? (fun d => d.name == s)).map (reloadPick chg E N) := by
   induction l with
   | nil => rfl
   | cons x xs ih =>
@@ -468,20 +472,21 @@ theorem find_map_pick (chg : SDef → SDef → Bool) (E : Eng) (l : List SDef) (
 theorem reload_same (P : List SDef) (E : Eng) (h : Loaded P E) : reload E P = E := by
   have hn := load_names_nodup P
   have hfind : ∀ s, E.find s = (load P).find s := fun s => find_congr h.streams s
-  have hstreams : (load P).streams.map (reloadPick changed E) = E.streams := by
+  have hcs := changed_self E (load P) hfind
+  have hstreams : (load P).streams.map (reloadPick changed E (load P)) = E.streams := by
     rw [h.streams]
     conv => rhs; rw [← List.map_id (load P).streams]
     apply List.map_congr_left
     intro d hd
     have : E.find d.name = some d := by rw [hfind]; exact find_of_mem hn hd
-    simp [reloadPick, this, changed_self]
+    simp [reloadPick, this, hcs]
   have hhist : (fun s => if keeps changed E (load P) s then E.hist s else []) = E.hist := by
     funext s
     have hk : keeps changed E (load P) s = ((load P).find s).isSome := by
       simp only [keeps, hfind]
       cases (load P).find s with
       | none => rfl
-      | some d => simp [changed_self]
+      | some d => simp [hcs]
     rw [hk]
     cases hf : (load P).find s with
     | none => simpa using (h.clean s (by rw [hfind]; exact hf)).symm
@@ -497,14 +502,14 @@ theorem reload_same (P : List SDef) (E : Eng) (h : Loaded P E) : reload E P = E 
 theorem reload_router (E : Eng) (P' : List SDef) : (reload E P').router = (load P').router := rfl
 
 theorem reload_find (E : Eng) (P' : List SDef) (s : Ty) :
-    (reload E P').find s = ((load P').find s).map (reloadPick changed E) := by
+    (reload E P').find s = ((load P').find s).map (reloadPick changed E (load P')) := by
   simp only [reload, Eng.find]
-  exact find_map_pick changed E _ s
+  exact find_map_pick changed E (load P') _ s
 
 /-- a stream that is new or whose declaration changed is, after `reload P'`, exactly what a fresh load of
 `P'` makes it: the new definition with empty state -/
 theorem reload_changed_fresh (E : Eng) (P' : List SDef) (d' : SDef) (hd : (load P').find d'.name = some d')
-    (hc : E.find d'.name = none ∨ ∃ d, E.find d'.name = some d ∧ changed d d' = true) :
+    (hc : E.find d'.name = none ∨ ∃ d, E.find d'.name = some d ∧ changed E (load P') d d' = true) :
     (reload E P').find d'.name = some d' ∧ (reload E P').hist d'.name = [] := by
   constructor
   · rw [reload_find, hd]
@@ -518,7 +523,7 @@ theorem reload_changed_fresh (E : Eng) (P' : List SDef) (d' : SDef) (hd : (load 
 
 /-- a stream whose declaration did not change keeps its definition and its state -/
 theorem reload_unchanged_kept (E : Eng) (P' : List SDef) (d d' : SDef) (hd : (load P').find d'.name = some d')
-    (hf : E.find d'.name = some d) (hch : changed d d' = false) :
+    (hf : E.find d'.name = some d) (hch : changed E (load P') d d' = false) :
     (reload E P').find d'.name = some d ∧ (reload E P').hist d'.name = E.hist d'.name := by
   constructor
   · rw [reload_find, hd]; simp [reloadPick, hf, hch]
